@@ -102,13 +102,14 @@ def c05(p):
         })
     # the placeholder given as argument is 0 while the object carries another (stale) nodata attribute
     da0 = da.where(da != -9999, 0).astype("int16")
+    da0.attrs = {}                      # (where / astype keep the attributes; assign_attrs({}) would not clear them)
     for kw in ({"robust": False}, {"robust": True}, {"robust": False, "p": 0.9}):
         spellings.explore(p, SUB, f"whitswcv(nodata=0, srange, {kw}) on an object without nodata attribute",
-                          lambda: da0.assign_attrs({}).hdc.whit.whitswcv(nodata=0, srange=sr, **kw), {
+                          lambda: da0.copy().hdc.whit.whitswcv(nodata=0, srange=sr, **kw), {
                               "the object carries attrs nodata=-9999": lambda: da0.assign_attrs(nodata=-9999).hdc.whit.whitswcv(nodata=0, srange=sr, **kw).map(lambda v: v.assign_attrs({})).assign_attrs({}),
                               "the object carries attrs nodata=7": lambda: da0.assign_attrs(nodata=7).hdc.whit.whitswcv(nodata=0, srange=sr, **kw).map(lambda v: v.assign_attrs({})).assign_attrs({}),
-                              "nodata=0.0": lambda: da0.assign_attrs({}).hdc.whit.whitswcv(nodata=0.0, srange=sr, **kw),
-                              "nodata=np.int16(0)": lambda: da0.assign_attrs({}).hdc.whit.whitswcv(nodata=np.int16(0), srange=sr, **kw),
+                              "nodata=0.0": lambda: da0.copy().hdc.whit.whitswcv(nodata=0.0, srange=sr, **kw),
+                              "nodata=np.int16(0)": lambda: da0.copy().hdc.whit.whitswcv(nodata=np.int16(0), srange=sr, **kw),
                           })
     spellings.explore(p, SUB, "whitswcv(nodata=-9999) [default grid]", lambda: W.whitswcv(nodata=-9999), {
         "srange=None explicitly": lambda: W.whitswcv(nodata=-9999, srange=None),
